@@ -1,22 +1,7 @@
-import Prom.Model.DataModel
-/-
-C16 — Exposition does not depend on the protobuf feature.
-The library and the text encoder touch `prometheus::proto` only through setters and getters; for
-every sequence of those calls the protobuf-backed model (optional fields, default on read) and the
-plain model are related by the abstraction `abs…`, so every read used by `gather()` and by the text
-encoder returns the same value in both builds.
--/
+import Prom.Lemmas.C16Aux
+
 namespace Prom.C16
 open Prom Prom.DM
-
-theorem abs_mkBuckets (bs : List (Nat × UInt64)) : (mkPBuckets bs).map absBucket = mkQBuckets bs := by
-  induction bs with
-  | nil => rfl
-  | cons b r ih =>
-    simp only [mkPBuckets, mkQBuckets, List.map_cons, List.map_map] at ih ⊢
-    rw [ih]
-    rfl
-
 /-- every metric operation commutes with the abstraction -/
 theorem metric_step (m : PMetric) (op : MetricOp) : absMetric (m.apply op) = (absMetric m).apply op := by
   cases op with
